@@ -418,6 +418,7 @@ type sPDR struct {
 	FAR     uint32   `json:"far"`
 	QERs    []uint32 `json:"qers,omitempty"`
 	BadSDF  bool     `json:"badsdf,omitempty"` // an SDF Filter IE with the FD flag and an empty description: the PDR is refused
+	Rev     bool     `json:"rev,omitempty"`    // the IEs inside the PDI, and inside the PDR, in the reverse of the usual order (any order is legal)
 }
 
 type sFAR struct {
@@ -513,6 +514,11 @@ func vPDRIE(grp uint16, p sPDR) *vIE {
 	if p.App != "" {
 		pdi = append(pdi, vFromIE(ie.NewApplicationID(p.App)))
 	}
+	if p.Rev {
+		for i, j := 0, len(pdi)-1; i < j; i, j = i+1, j-1 {
+			pdi[i], pdi[j] = pdi[j], pdi[i]
+		}
+	}
 	kids := []*vIE{vFromIE(ie.NewPDRID(p.ID)), vFromIE(ie.NewPrecedence(p.Prec)), vGrp(ie.PDI, pdi...)}
 	if p.Decap {
 		kids = append(kids, vFromIE(ie.NewOuterHeaderRemoval(0, 0)))
@@ -520,6 +526,21 @@ func vPDRIE(grp uint16, p sPDR) *vIE {
 	kids = append(kids, vFromIE(ie.NewFARID(p.FAR)))
 	for _, q := range p.QERs {
 		kids = append(kids, vFromIE(ie.NewQERID(q)))
+	}
+	if p.Rev {
+		// the QER IDs keep their relative order (it carries meaning), everything else is reversed around them
+		var qs, rest []*vIE
+		for _, k := range kids {
+			if k.T == ie.QERID {
+				qs = append(qs, k)
+			} else {
+				rest = append(rest, k)
+			}
+		}
+		for i, j := 0, len(rest)-1; i < j; i, j = i+1, j-1 {
+			rest[i], rest[j] = rest[j], rest[i]
+		}
+		kids = append(qs, rest...)
 	}
 	return vGrp(grp, kids...)
 }
